@@ -518,7 +518,80 @@ fn run_in_child(input: &Value) -> CaseOut {
     })
 }
 
+//------------ stream `stress`: real threads in lockstep, no schedule ----------------------------------------------
+//
+// The schedules stream steps threads from rendezvous point to rendezvous point; what lies between two points is one
+// atomic step there.  Here several real threads ask one run for the same fresh key at the same moment, key after
+// key, and only the number of fetches started per key is looked at: an oracle-only negative test without a model.
+
+fn gen_stress(_rng: &mut Rng, tier: &str) -> Vec<(String, Value)> {
+    let k = if tier == "thorough" { 4 } else { 1 };
+    let mut v = Vec::new();
+    for r in 0..k {
+        v.push(("stress.rrdp".to_string(), json!({"kind": "rrdp", "threads": 8, "trials": 150, "round": r})));
+        v.push(("stress.rrdp".to_string(), json!({"kind": "rrdp", "threads": 3, "trials": 150, "round": r})));
+        v.push(("stress.rsync".to_string(), json!({"kind": "rsync", "threads": 8, "trials": 40, "round": r})));
+    }
+    v
+}
+
+fn run_stress(input: &Value) -> CaseOut {
+    use std::sync::atomic::{AtomicUsize, Ordering};
+    let threads = input["threads"].as_u64().unwrap() as usize;
+    let trials = input["trials"].as_u64().unwrap() as usize;
+    let rrdp = input["kind"] == "rrdp";
+    let lockstep = |load: &(dyn Fn(usize) + Sync)| {
+        let arrived = AtomicUsize::new(0);
+        std::thread::scope(|scope| {
+            for _ in 0..threads {
+                scope.spawn(|| {
+                    // pass through the rendezvous points without touching the registry of the hooks
+                    routinator::verif::exempt_current_thread(true);
+                    for i in 0..trials {
+                        arrived.fetch_add(1, Ordering::SeqCst);
+                        let mut spins = 0u32;
+                        while arrived.load(Ordering::SeqCst) < (i + 1) * threads {
+                            spins += 1;
+                            if spins % 10_000 == 0 { std::thread::yield_now(); }
+                            std::hint::spin_loop();
+                        }
+                        load(i);
+                    }
+                });
+            }
+        });
+    };
+    let (events, metrics_len): (Vec<(String, String, String)>, usize) = if rrdp {
+        // repositories on a local port nobody listens on: every fetch is one failed request for the notification file
+        let port = { let l = std::net::TcpListener::bind("127.0.0.1:0").unwrap(); l.local_addr().unwrap().port() };
+        let dir = tempfile::tempdir().unwrap();
+        let mut config = Config::default_with_paths(Default::default(), dir.path().join("cache"));
+        config.allow_dubious_hosts = true;
+        config.disable_rsync = true;
+        config.rrdp_connect_timeout = Some(Duration::from_secs(2));
+        config.rrdp_timeout = Some(Duration::from_secs(2));
+        let run = config.verif_c37_rrdp_run().expect("rrdp collector");
+        let uris: Vec<uri::Https> = (0..trials).map(|i| uri::Https::from_str(&format!("https://127.0.0.1:{}/repo{}/notification.xml", port, i)).unwrap()).collect();
+        lockstep(&|i| { run.load(&uris[i]); });
+        (run.events(), run.metrics_len())
+    } else {
+        let (config, _, _) = rsync_env();
+        let run = config.verif_c37_rsync_run().expect("rsync collector");
+        let round = input["round"].as_u64().unwrap();
+        let uris: Vec<uri::Rsync> = (0..trials).map(|i| uri::Rsync::from_str(&format!("rsync://stress{}x{}.example/mod/", round, i)).unwrap()).collect();
+        lockstep(&|i| { run.load(&uris[i]); });
+        (run.events(), run.metrics_len())
+    };
+    let mut fetches: BTreeMap<String, u64> = BTreeMap::new();
+    for (kind, _thread, key) in events { if kind == "fetch_start" { *fetches.entry(key).or_default() += 1; } }
+    let counts: Vec<u64> = fetches.values().cloned().collect();
+    let obs = json!({"keys": counts.len(), "fetches": counts.iter().sum::<u64>(), "metrics": metrics_len});
+    let coq = format!("{{| s_threads := {}; s_trials := {}; i_counts := {}; i_metrics := {} |}}", threads, trials, coq_nlist(counts.iter()), metrics_len);
+    CaseOut { obs, coq, nontrivial: threads > 1 }
+}
+
 fn main() {
+    if std::env::var("C37_STREAM").as_deref() == Ok("stress") { drive(gen_stress, run_stress); return }
     if std::env::args().nth(1).as_deref() == Some("worker") { worker_loop(); return }
     let threads = std::env::var("C37_WORKERS").ok().and_then(|s| s.parse().ok()).unwrap_or(8);
     drive_par(gen, run_in_child, threads)
